@@ -88,6 +88,15 @@ Theorem c19_quantity : forall a b : tag, convertible a b = true ->
 Proof. exact scaled_error. Qed.
 Print Assumptions c19_quantity.
 
+(* the same with premises on the number only: any finite observation of magnitude between 2^-900 and 2^900 *)
+Theorem c19_quantity_moderate : forall a b : tag, convertible a b = true ->
+  forall x : f64, Binary.is_finite 53 1024 x = true ->
+  bpow radix2 (-900) <= Rabs (R64 x) <= bpow radix2 900 ->
+  let rho := Q2R (spec_ratio (tag_unit a) (tag_unit b)) in
+  Rabs (R64 (f64_mul x (ratio_f64 a b)) - R64 x * rho) <= (bpow radix2 (-52) + bpow radix2 (-106)) * Rabs (R64 x * rho).
+Proof. exact scaled_error_moderate. Qed.
+Print Assumptions c19_quantity_moderate.
+
 (* ---- value trees ---- *)
 (* every well-typed tree of WithUnit / Distribution / Mean / Option / Duration / primitive / arbitrary scripted
    values makes the call the specification prescribes - nothing, string, validation error or metric with the same
@@ -145,6 +154,15 @@ Proof. split; vm_compute; reflexivity. Qed.
 Example c19_example_unitless : convertible T_None T_Percent = true /\ unitless_source T_None = true.
 Proof. split; reflexivity. Qed.
 
+(* the premises of c19_quantity_moderate are satisfiable: 1.5 Terabits converted to Kilobytes *)
+Example c19_example_quantity_premises :
+  convertible T_Terabit T_Kilobyte = true /\
+  (Binary.is_finite 53 1024 (f64_of_bits 4609434218613702656) = true /\
+   (bpow radix2 (-900) <= Rabs (R64 (f64_of_bits 4609434218613702656)) <= bpow radix2 900)%R).
+Proof.
+  split; [reflexivity|].
+  eapply f64_moderate_by_Q; [vm_compute; reflexivity | vm_compute; reflexivity | vm_compute; reflexivity].
+Qed.
 (* 1500 milliseconds declared as Seconds: one observation, 1.5, unit Seconds *)
 Example c19_example_duration :
   match write (WithUnit (PDuration 1 500000000) T_Second) with
